@@ -363,10 +363,12 @@ impl AssemblyCode {
                     {
                         remove_second = true;
                     }
-                    // Remove STA followed by LDA
+                    // Remove STA followed by LDA (only when N and Z already describe A:
+                    // the removed LDA would have set them)
                     if i1.mnemonic == AsmMnemonic::STA
                         && i2.mnemonic == AsmMnemonic::LDA
                         && i1.dasm_operand == i2.dasm_operand
+                        && flags == FlagsState::A
                         && !i2.protected
                     {
                         remove_second = true;
